@@ -33,7 +33,11 @@ PROPS["C08"] = {
 PROPS["C05"] = {
     "needs_sfw": True,
     "technique": 'Lean 4 proof that match(t, index(t)) = 1 and is reported by both backends + index/scan differential on generated Go sources',
-    "suites": [{"name": "match", "quick": 250, "thorough": 6000}, {"name": "indexscan", "quick": 3, "thorough": 30, "timeout": 3000}, {"name": "cli", "quick": 1, "thorough": 6, "timeout": 3000}],
+    "suites": [{"name": "match", "quick": 250, "thorough": 6000}, {"name": "indexscan", "quick": 3, "thorough": 30, "timeout": 3000}, {"name": "cli", "quick": 1, "thorough": 6, "timeout": 3000},
+               # "found again" also when the scan runs on a handle other goroutines write to: the stress of C11
+               # without the race detector (a scan that misses a signature whose add has returned is C05's clause too)
+               {"name": "concurrent", "timeout": 3000}],
+    "also": ["C11"],
     "required_theorems": ["C05_self_match", "C05_found_in_alerts", "C05_found_exact_json"],
     "level_text": "Kernel-checked: MatchSignature(t, IndexFunction(t)) has confidence exactly 1 for every topology, hash value and default tolerance, hence the indexed signature is reported by the alert pipeline of either backend at every threshold <= 1 and by JSON exact mode. Tie: IndexFunction, GenerateTopologyHash (model SHA-256), GenerateFuzzyHash, MatchSignature differential; self-match evaluated on the real code for every generated topology.",
     "level_note": "PARTIAL: the SSA-extraction half (topology of a renamed/reformatted copy equals the original's) is a fact about go/ssa + ExtractTopology and is validated by differential runs on generated Go sources, not proved. Trusted: Lean kernel, SHA-256 model used only for equality, harness.",
@@ -96,7 +100,7 @@ PROPS["C13"] = {
 }
 PROPS["C07"] = {
     "technique": 'Lean 4 proof over crash prefixes of the batch log + SIGKILL / power-loss fault enumeration on the real store',
-    "suites": [{"name": "crash", "quick": 16, "thorough": 150, "timeout": 3000}],
+    "suites": [{"name": "crash", "quick": 24, "thorough": 150, "timeout": 3000}],
     "required_theorems": ["C07_single_batch", "C07_crash_atomic", "C07_log_replay", "C07_history_crash_consistent",
                           "C07_rebuild_crash_keeps_records", "C07_rebuild_crash_recordsOk", "C07_rebuild_repairs"],
     "level_text": "Kernel-checked on the store model: every mutation except the rebuild commits at most one atomic batch, so every crash prefix of the batch log of ANY rebuild-free history is the state after a prefix of the operations and satisfies the index invariant; an interrupted rebuild never changes a record, and re-running the rebuild from ANY state with intact records restores the full invariant with the same records. Tie (fault enumeration validating the model): a child process is SIGKILLed before every write-type file-system call of short histories on a real directory and the reopened store must be the state after `acked` or `acked+1` operations with consistent indexes (raw key dump == the Lean model's key set); on a strict in-memory FS unsynced data is dropped after every acknowledged operation.",
